@@ -4,12 +4,12 @@
    and Message::encode(f8String&) in coq/Codec (every write into a stack buffer is checked against
    the buffer's capacity, real_caps = the capacities of the pinned source).
 
-   State of the code (/repo 1965750): extract_element (d48d8ce) and extract_element_fixed_width
+   State of the code (/repo 408434c; factory refuses the pseudo rows header/trailer of the message table): extract_element (d48d8ce) and extract_element_fixed_width
    (ce1e2cc) are bounded, decode_group leaves its loop on an empty element (a0d41df), fast_atoi
    honours '-' (a8219b1) and accumulates in the unsigned type (1965750), calc_chksum loads with memcpy (9d9ce26), the date/time
    parsers do not shift and clamp the month (da4ab8c).  Decoding is therefore proved safe for ALL
    byte strings.  NOT repaired and stated as refutations / partial theorems: output[] of
-   encode(f8String&) (F07), the pseudo rows of the message table (35=header / 35=trailer) and the 64-bit tick product of the
+   encode(f8String&) (F07) and the 64-bit tick product of the
    date/time constructors.  The pre-repair definitions (suffix _orig) carry the witnesses of the repaired
    defects. *)
 From Coq Require Import NArith ZArith List Bool String.
@@ -25,37 +25,15 @@ Theorem c03_extract_element_safe : forall tcap vcap from sz,
 Proof. exact extract_element_safe. Qed.
 Print Assumptions c03_extract_element_safe.
 
-(* Decoding (c03_factory = Message::factory including its lookup of the two pseudo rows "header" /
-   "trailer" of the generated message table): for every schema with closed group tables (c03_wf,
-   checked on the dumped metadata at every run) and EVERY byte string shorter than 2^32 whose MsgType
-   text is not the name of a pseudo row -- Length/data pairs included --, strict or permissive, with
-   or without checksum test, the factory returns a message or throws a library exception: no overrun
-   of the tag/val/len/mtype buffers, no read past the input or of bytes never written, no Diverge, no
-   Fuel.  (UB inside the value constructors is the subject of the fast_atoi / date-time theorems
-   below; memory safety of encode of c03_encode_*.) *)
-Theorem c03_decode_safe_partial : forall c bytes no_chksum permissive,
-  c03_wf c = true -> is_bytes bytes = true -> lenN bytes < 4294967296 -> c03_pseudo real_caps bytes = false ->
-  safe (c03_factory c real_caps bytes no_chksum permissive).
-Proof. exact c03_factory_safe_lemma. Qed.
-Print Assumptions c03_decode_safe_partial.
-
-(* NOT repaired (finding C03-pseudo-msgtype): 35=header / 35=trailer selects a table row whose
-   creator is reinterpret_cast<Message *>(new header / trailer); factory decodes into that object
-   (type confusion: heap-buffer-overflow reads, runaway loops).  Near misses are ordinary unknown types. *)
-Theorem c03_pseudo_msgtype_refuted :
-  is_bytes (pseudo_msg "header") = true /\
-  c03_factory ex_ctx real_caps (pseudo_msg "header") false false = OOB site_pseudo_entry /\
-  c03_factory ex_ctx real_caps (pseudo_msg "trailer") true true = OOB site_pseudo_entry /\
-  c03_pseudo real_caps (pseudo_msg "Header") = false /\ c03_pseudo real_caps (pseudo_msg "header1") = false /\
-  c03_pseudo real_caps (pseudo_msg "heade") = false /\ c03_pseudo real_caps (pseudo_msg "trailer ") = false /\
-  safe (c03_factory ex_ctx real_caps (pseudo_msg "header1") false false).
-Proof. exact c03_pseudo_msgtype_refuted_lemma. Qed.
-Print Assumptions c03_pseudo_msgtype_refuted.
-
-(* The decoder proper (everything behind the table lookup) is safe on every byte string. *)
+(* Decoding: for every schema with closed group tables (c03_wf, checked on the dumped metadata at
+   every run) and EVERY byte string shorter than 2^32 -- Length/data pairs included, any MsgType text
+   --, strict or permissive, with or without checksum test, Message::factory returns a message or
+   throws a library exception: no overrun of the tag/val/len/mtype buffers, no read past the input or
+   of bytes never written, no Diverge, no Fuel.  (UB inside the value constructors is the subject of
+   the fast_atoi / date-time theorems below; memory safety of encode of c03_encode_*.) *)
 Theorem c03_decode_safe : forall c bytes no_chksum permissive,
   c03_wf c = true -> is_bytes bytes = true -> lenN bytes < 4294967296 ->
-  safe (factory c real_caps bytes no_chksum permissive).
+  safe (c03_factory c real_caps bytes no_chksum permissive).
 Proof. exact c03_decode_safe_lemma. Qed.
 Print Assumptions c03_decode_safe.
 
@@ -64,8 +42,29 @@ Print Assumptions c03_decode_safe.
 Theorem c03_decode_total : forall c bytes no_chksum permissive,
   c03_wf c = true ->
   c03_factory c real_caps bytes no_chksum permissive <> Fuel /\ c03_factory c real_caps bytes no_chksum permissive <> Diverge.
-Proof. exact c03_factory_total_lemma. Qed.
+Proof. exact c03_decode_total_lemma. Qed.
 Print Assumptions c03_decode_total.
+
+(* Finding C03-pseudo-msgtype, repaired by 408434c: with the OLD table lookup (c03_factory_orig)
+   35=header / 35=trailer selected a row whose creator is reinterpret_cast<Message *>(new header /
+   trailer) and factory decoded into that object (type confusion); now both texts are unknown types.
+   Outside these two texts the old lookup was safe as well. *)
+Theorem c03_pseudo_msgtype_orig_refuted :
+  is_bytes (pseudo_msg "header") = true /\
+  c03_factory_orig ex_ctx real_caps (pseudo_msg "header") false false = OOB site_pseudo_entry /\
+  c03_factory_orig ex_ctx real_caps (pseudo_msg "trailer") true true = OOB site_pseudo_entry /\
+  c03_factory ex_ctx real_caps (pseudo_msg "header") false false = Exc EInvalidMessage /\
+  c03_factory ex_ctx real_caps (pseudo_msg "trailer") true true = Exc EInvalidMessage /\
+  c03_pseudo real_caps (pseudo_msg "Header") = false /\ c03_pseudo real_caps (pseudo_msg "header1") = false /\
+  c03_pseudo real_caps (pseudo_msg "heade") = false /\ c03_pseudo real_caps (pseudo_msg "trailer ") = false.
+Proof. exact c03_pseudo_msgtype_orig_refuted_lemma. Qed.
+Print Assumptions c03_pseudo_msgtype_orig_refuted.
+
+Theorem c03_decode_orig_safe_partial : forall c bytes no_chksum permissive,
+  c03_wf c = true -> is_bytes bytes = true -> lenN bytes < 4294967296 -> c03_pseudo real_caps bytes = false ->
+  safe (c03_factory_orig c real_caps bytes no_chksum permissive).
+Proof. exact c03_factory_orig_safe_lemma. Qed.
+Print Assumptions c03_decode_orig_safe_partial.
 
 (* The fixed-width extractor never leaves its buffers either (repaired by ce1e2cc). *)
 Theorem c03_extract_fixed_width_safe : forall tcap vcap from sz val_sz,
